@@ -47,7 +47,7 @@ void Sim::reset() {
   clock_step_ns = 1000000; clock_yield_ns = 1000;
   alloc_cap = (size_t)256 << 20; alloc_fail_nth = -1;
   max_yields = 1000000; stdio_bufsize = 0;
-  { static const double env_cpu = [] { const char* e = ::secure_getenv("VERIF_CPU_BUDGET_S"); return e ? atof(e) : 0.0; }(); cpu_budget_s = env_cpu > 0 ? env_cpu : 20.0; }
+  { static const double env_cpu = [] { const char* e = ::secure_getenv("VERIF_CPU_BUDGET_S"); return e ? atof(e) : 0.0; }(); cpu_budget_s = env_cpu > 0 ? env_cpu : 10.0; }
   { static const long env_max = [] { const char* e = ::secure_getenv("VERIF_MAX_ALLOCS"); return e ? atol(e) : 0L; }(); max_allocs = env_max > 0 ? (uint64_t)env_max : 10000000; }
   seq = 0; yields = 0; clock_ns = clock_start_ns = 1000000000LL; hash = 1469598103934665603ULL;
   history.clear(); occ.clear(); fired.clear();
